@@ -20,7 +20,7 @@ for p in patches:
             env = dict(os.environ, VERIF_REPO=wt, VERIF_EVIDENCE_DIR=wt + "-ev")
             r = subprocess.run([os.path.join(VERIF, "check"), c], cwd=VERIF, env=env, stdout=subprocess.PIPE, stderr=subprocess.STDOUT, text=True, errors="replace")
             lines = [l for l in r.stdout.splitlines() if l.startswith(("VIOLATION", "NO-VERDICT", "MODEL-DRIFT", "  monitor"))]
-            print("%-40s %s rc=%d %s" % (os.path.basename(p), c, r.returncode, " | ".join(x[:160] for x in lines[:3])))
+            print("%-40s %s rc=%d %s" % (os.path.basename(p), c, r.returncode, " | ".join(x[:900] for x in lines[:3])))
             sys.stdout.flush()
             bad += 1 if r.returncode != 0 else 0
     finally:
